@@ -462,38 +462,19 @@ func c10HashLine(p *Prog, rp *Report) {
 			return nil, false, "method not found"
 		}
 		m := NewMachine(p, nil)
-		cols := []Val{}
+		// a concrete line of ncols blank-separated columns; the second column is a number
+		var cols []string
 		for i := 0; i < ncols; i++ {
-			cols = append(cols, fmt.Sprintf("col%d", i))
-		}
-		mkSlice := func(st *State) Val {
-			arr := &ArrayV{E: append([]Val(nil), cols...)}
-			id := st.alloc(types.NewArray(types.Typ[types.String], int64(ncols)), arr)
-			return SliceV{Obj: id, Len_: ncols, Cap: ncols}
-		}
-		splitter := func(m *Machine, st *State, call *ssa.CallCommon, args []Val) ([]Val, bool) {
-			return []Val{mkSlice(st)}, true
-		}
-		m.Hooks["strings.Fields"] = splitter
-		m.Hooks["strings.Split"] = splitter
-		m.Hooks["strings.SplitN"] = splitter
-		m.Hooks["strconv.ParseInt"] = func(m *Machine, st *State, call *ssa.CallCommon, args []Val) ([]Val, bool) {
-			s, _ := args[0].(string)
-			if s == "" {
-				return []Val{&TupleV{E: []Val{int64(0), IfaceV{T: errT, V: "syntax"}}}}, true
+			if i == 1 {
+				cols = append(cols, fmt.Sprint(1000+i))
+			} else {
+				cols = append(cols, fmt.Sprintf("col%d", i))
 			}
-			var n int64
-			fmt.Sscanf(s, "col%d", &n)
-			return []Val{&TupleV{E: []Val{1000 + n, nilV{}}}}, true
 		}
-		m.Hooks["strconv.Atoi"] = m.Hooks["strconv.ParseInt"]
-		m.Hooks["fmt.Errorf"] = func(m *Machine, st *State, call *ssa.CallCommon, args []Val) ([]Val, bool) {
-			return []Val{IfaceV{T: errT, V: "error"}}, true
-		}
-		m.Hooks["errors.New"] = m.Hooks["fmt.Errorf"]
+		_ = errT
 		st := initState(m, "control")
 		id := st.alloc(nt, zeroVal(nt))
-		st.push(fn, []Val{Ptr{Obj: id}, "the line"}, nil)
+		st.push(fn, []Val{Ptr{Obj: id}, strings.Join(cols, " ")}, nil)
 		out := m.Run(st)
 		if len(out) != 1 || out[0].Status != stRet {
 			return nil, false, retDesc(out)
@@ -546,7 +527,7 @@ func c10HashLine(p *Prog, rp *Report) {
 					problems = append(problems, fmt.Sprintf("ByHash is %v, want %q", res["ByHash"], tc.byHash))
 				}
 			case 2:
-				if isErr || res["Filename"] != "col0" || res["Hash"] != "col1" {
+				if isErr || res["Filename"] != "col0" || res["Hash"] != "1001" {
 					problems = append(problems, fmt.Sprintf("2 columns (conffiles) must be name,hash; got err=%v name=%v hash=%v", isErr, res["Filename"], res["Hash"]))
 				}
 			default:
